@@ -1074,6 +1074,31 @@ theorem read_ok_is_faultfree_any_kind (ext : Ext) (a : Archive) (i : Nat) (pw : 
    fun _ h => (byIndexReadB_ri ext a i pw).ok_is_faultfree (byIndexRead_tight ext a i pw).errOnFire h,
    fun f _ h => (findContentI_ri f).ok_is_faultfree (findContent_tight f).errOnFire h⟩
 
+/-- **`read_scenario_any_kind`** - open an archive and read every entry by index (consumer: a bare `read` loop - the
+scenario the driver answers `fault.read` from), one fault of ANY kind at ANY I/O call index: on a device that does not
+fail with `Interrupted` the scenario IS `openAndReadAll` (so `read_scenario_dichotomy` applies); in general, if `new`
+returned an archive and every entry read returned a value, the archive value, every entry's result and the final device
+are those of the failure-free scenario - with exactly one more call counted when a retry loop absorbed an `Interrupted`. -/
+theorem read_scenario_any_kind (ext : Ext) (pw : Option Bytes) (k : Nat) (d : Dev) :
+    (d.fkind ≠ .interrupted → openAndReadAllB ext pw (some k) d = openAndReadAll ext pw (some k) d) ∧
+    ((openAndReadAllB ext pw (some k) d).1.isOk = true →
+      (∀ o ∈ (openAndReadAllB ext pw (some k) d).2.1, o.isOk = true) →
+      (openAndReadAllB ext pw (some k) d).1 = (openAndReadAll ext pw none d).1 ∧
+      (openAndReadAllB ext pw (some k) d).2.1 = (openAndReadAll ext pw none d).2.1 ∧
+      ((openAndReadAllB ext pw (some k) d).2.2 = (openAndReadAll ext pw none d).2.2 ∨
+        (d.fkind = .interrupted ∧
+          (openAndReadAllB ext pw (some k) d).2.2 = (openAndReadAll ext pw none d).2.2.shift 1))) :=
+  ⟨fun hk => openAndReadAllB_hard ext pw (some k) d (Or.inl hk), openAndReadAllB_all_ok ext pw k d⟩
+
+/-- the hypotheses instantiated (kernel): `C05.oneEntry` on a device failing with `Interrupted` at call 5 (inside a
+`read_exact` of `new`) - `new` and the entry read return values, one more call than the failure-free scenario. -/
+example :
+    (openAndReadAllB storedExt none (some 5) (Dev.ofBytesK C05.oneEntry .interrupted)).1.isOk = true ∧
+    (openAndReadAllB storedExt none (some 5) (Dev.ofBytesK C05.oneEntry .interrupted)).2.1.all (·.isOk) = true ∧
+    (openAndReadAllB storedExt none (some 5) (Dev.ofBytesK C05.oneEntry .interrupted)).2.2.calls =
+      (openAndReadAll storedExt none none (Dev.ofBytesK C05.oneEntry .interrupted)).2.2.calls + 1 := by
+  refine ⟨by decide +kernel, by decide +kernel, by decide +kernel⟩
+
 /-- **Under one fault of any kind every call of the seekable reader returns an error or the failure-free outcome**
 (`ZipArchive::new`): the outcome component is `Err`, or it is the outcome of the failure-free run. -/
 theorem open_fault_outcome_any_kind (k : Nat) (d : Dev) :
@@ -1123,6 +1148,14 @@ stream), `seek` / `flush` are bare, and the one sink `write` of `ZipWriter::writ
 (`write_all`, `io::copy`).  `stepI` is `GW.step` at `MI`; `GW.step` at `M` IS the writer model (`GW.step_M`).  NOT covered:
 I/O inside the encoders (flate2 / bzip2 / zstd hand their output to the sink in loops that do not retry; the model
 coalesces it into one `write_all`) - compressing scenarios under `Interrupted` stay with the oracle. -/
+
+/-- **`ZipWriter::write` reports a failure of its sink call having changed nothing** (any error but the 4 GiB refusal,
+which closes the writer): the caller's retry loop (`write_all`, `io::copy`) that sees `Interrupted` and calls it again
+re-issues exactly that one sink call - why the `MI` writer treats it as a retried call. -/
+theorem zipwriter_write_fault_leaves_state (acc : Bytes → Nat) (buf : Bytes) (s s' : WState) (fa : Option Nat)
+    (d d' : Dev) (e : ZErr) (h : (GW.write acc buf s : M _) fa d = (.ok (.error e, s'), d')) (he : e ≠ .io .other) :
+    s' = s :=
+  GW.write_error_leaves_state acc buf s s' fa d d' e h he
 
 /-- **On a device that fails with any kind but `Interrupted`, and without a fault, the writer with std's convention IS
 the writer model** - every call of the alphabet, every state; `new_append`; whole call sequences. -/
